@@ -2,6 +2,7 @@
 `TimeDelta` tuple form, weekday / month names. -/
 import Chrono.Drv.Util
 import Chrono.Model.SerdeTs
+import Chrono.Model.SerdeStr
 import Chrono.Model.Weekday
 namespace Chrono.Drv.Serde
 open Chrono Chrono.M Chrono.M.Serde Chrono.Drv
@@ -67,6 +68,17 @@ def handle (op : String) (args : List String) : Option String :=
   | "sd.deo", t :: u :: w => some (match tg? t, unit? u, wopt? w with
       | some t, some u, some w => showRes (showSR showODT) (deserialize_option t u w)
       | _, _, _ => bad)
+  | "sd.dt.ser", [y, s, f, o] => some (match dt? y s f, int? o with
+      | some dt, some o => (match DateTimeStr.serialize ⟨dt, o⟩ with
+        | .ok (some b) => hexEncode b
+        | .ok none => "err"
+        | .panic => "panic")
+      | _, _ => bad)
+  | "sd.dt.de", [t, x] => some (match hexDecode x with
+      | some b =>
+        let r := if t == "utc" then DateTimeStr.deserialize_utc b else DateTimeStr.deserialize_fixed b
+        showRes (showSR fun (z : Zoned) => s!"{showDT z.utc} {z.off}") r
+      | none => bad)
   | "sd.td.ser", [s, n] => some (match int? s, int? n with
       | some s, some n => let p := TimeDelta.serialize ⟨s, n⟩; s!"{p.1} {p.2}"
       | _, _ => bad)
